@@ -170,7 +170,54 @@ def bounded_corpus_selfcontained(tier, seed):
             "exhaustive": False, "failures": failures}
 
 
-BOUNDED = [bounded_corpus_selfcontained]
+def bounded_regeneration_over_existing_core(tier, seed):
+    """the runtime modules are the shipped ones also when a core directory already exists: an older, hand-edited or truncated copy (with any mtime) is
+    replaced by every generation, in the embedded and in the shared-core layout, with and without force"""
+    import shutil
+    import time
+    from props import corpus, gen_harness as G
+    d = {n: x for n, f, x in corpus.shapes("quick", seed)}["two-tags"]
+    n, failures = 0, []
+    for pkg, core in (("cli", None), ("apis.cli", "apis.shared_core")):
+        root = G.scratch("c12r")
+        try:
+            if G.generate(d, root, pkg, core_package=core) is not None:
+                continue
+            cdir = os.path.join(root, *(core or pkg + ".core").split("."))
+            for tamper in ("edited-newer", "truncated-newer", "edited-older"):
+                for mod, fn in runtime_files():
+                    rel = os.path.join(*mod.split(".")[2:], fn) if len(mod.split(".")) > 2 else fn
+                    dst = os.path.join(cdir, rel)
+                    if not os.path.exists(dst) or fn == "__init__.py":
+                        continue
+                    if tamper.startswith("truncated"):
+                        open(dst, "w").write("# truncated\n")
+                    else:
+                        open(dst, "a").write("\n# local edit\n")
+                    t = time.time() + (3600 if tamper.endswith("newer") else -10 ** 7)
+                    os.utime(dst, (t, t))
+                err = G.generate(d, root, pkg, core_package=core, force=True)
+                n += 1
+                if err is not None:
+                    failures.append({"id": f"bounded:regenerate-core:{tamper}:error", "detail": f"[{pkg}+{core}] {type(err).__name__}: {err}"[:300], "input": {"layout": f"{pkg}+{core}"}})
+                    continue
+                stale = []
+                for mod, fn in runtime_files():
+                    src = os.path.join("/repo/src", *mod.split("."), fn)
+                    rel = os.path.join(*mod.split(".")[2:], fn) if len(mod.split(".")) > 2 else fn
+                    dst = os.path.join(cdir, rel)
+                    if fn != "__init__.py" and (not os.path.exists(dst) or open(dst, "rb").read() != open(src, "rb").read()):
+                        stale.append(rel)
+                if stale:
+                    failures.append({"id": f"bounded:regenerate-core:{tamper}:stale-runtime-file", "detail": f"[{pkg}+{core}] after regenerating over a {tamper} core: {stale[:5]} differ "
+                                     "from the shipped runtime modules", "input": {"layout": f"{pkg}+{core}", "tamper": tamper}})
+        finally:
+            shutil.rmtree(root, ignore_errors=True)
+    return {"function": "generate_client(force=True) over an existing core directory whose runtime files were edited / truncated, with newer and older mtimes: byte comparison with the shipped files",
+            "backend": "bounded", "bound": "1 document x 2 layouts (embedded, shared core) x 3 tamperings", "evaluations": n, "distinct_nontrivial": n, "exhaustive": False, "failures": failures}
+
+
+BOUNDED = [bounded_corpus_selfcontained, bounded_regeneration_over_existing_core]
 
 
 def witness_black(k):
